@@ -230,17 +230,25 @@ static int LENS[7] = {1, 8, 9, 5, 6, 7, 13};
 #define NLENS_ALL 7
 static void solve_case (int p, int q, const uint64_t *rows /* p rows, bit j = column j (q<=64) or NULL for embedded */, const bitmat *Mbig, int len, int nullrhs, const char *desc)
 {
-	of_linear_binary_code_cb_t cb;
+	/* ONE control block per worker, reused by every solve (never re-zeroed): the solver must not depend on what an
+	 * earlier call left in its scratch fields (nb_tmp_symbols, tmp_tab_symbols), as a long-lived session would expose */
+	static of_linear_binary_code_cb_t cb;
+	static void *tmp_static[256];
 	of_mod2dense *m = of_mod2dense_allocate ((UINT32) p, (UINT32) q);
-	void **ct = calloc ((size_t) p, sizeof (void *)), **vt = calloc ((size_t) q, sizeof (void *)), **tmp = calloc ((size_t) (p + q + 8), sizeof (void *));
+	void **ct = calloc ((size_t) p, sizeof (void *)), **vt = calloc ((size_t) q, sizeof (void *)), **tmp = tmp_static;
 	unsigned char *x = malloc ((size_t) q * len);
 	bitmat *R = bm_new (p, q);
 	int i, j, b, rank;
 	of_status_t st;
 	char sig[160];
-	snprintf (g_desc, sizeof g_desc, "%s", desc); memcpy (vf_slot (), g_desc, sizeof g_desc);
-	memset (&cb, 0, sizeof cb);
-	cb.encoding_symbol_length = (UINT32) len; cb.tmp_tab_symbols = tmp; cb.nb_tmp_symbols = 0;
+	{
+		/* the control block is shared with the previous solve of this worker: a replayable case names both */
+		static char prev[200];
+		snprintf (g_desc, sizeof g_desc, "%s%s%s", desc, prev[0] ? " || prev: " : "", prev);
+		memcpy (vf_slot (), g_desc, sizeof g_desc);
+		snprintf (prev, sizeof prev, "%.190s", desc);
+	}
+	cb.encoding_symbol_length = (UINT32) len; cb.tmp_tab_symbols = tmp;
 	for (j = 0; j < q; j++) for (b = 0; b < len; b++) x[j * len + b] = (unsigned char) (b == 0 ? (q <= 8 ? (1u << j) : (unsigned) (j + 1)) : (vf_mix64 ((uint64_t) j * 977 + (uint64_t) b) >> 9));
 	for (i = 0; i < p; i++) {
 		unsigned char *rhs = calloc (1, (size_t) len);
@@ -268,7 +276,7 @@ static void solve_case (int p, int q, const uint64_t *rows /* p rows, bit j = co
 		}
 	for (i = 0; i < p; i++) free (ct[i]);
 	for (j = 0; j < q; j++) { int dupl = 0; for (i = 0; i < j; i++) if (vt[i] == vt[j]) dupl = 1; if (!dupl) free (vt[j]); }
-	free (ct); free (vt); free (tmp); free (x); bm_free (R);
+	free (ct); free (vt); free (x); bm_free (R);
 	of_mod2dense_free (m);
 }
 typedef struct { int p, q; } pq_t;
@@ -307,11 +315,23 @@ static void solver_item (long it, void *arg)
 	}
 }
 
+static void replay_one (const char *cs);
 static void item_replay (long it, void *arg)
 {
-	const char *cs = vf_replay_case ();
+	const char *cs = vf_replay_case (), *pv;
 	(void) it; (void) arg;
 	vf_slot_set_prop ("C18");
+	if ((pv = strstr (cs, " || prev: "))) {	/* solver cases: the previous solve on the same control block comes first */
+		static char cur[300];
+		snprintf (cur, sizeof cur, "%.*s", (int) (pv - cs), cs);
+		replay_one (pv + 10);
+		replay_one (cur);
+		return;
+	}
+	replay_one (cs);
+}
+static void replay_one (const char *cs)
+{
 	if (!strncmp (cs, "ops ", 4)) {
 		bfs_hist h; bfs_sys s; const char *p;
 		memset (&h, 0, sizeof h); memset (&s, 0, sizeof s);
